@@ -21,8 +21,8 @@ REPO = os.environ.get("CIWVERIF_REPO", "/repo")
 
 # property -> configuration
 PROPS = {
-    "C01": dict(fam=["core1", "tandem", "prio", "cls", "renege", "route", "preempt"],
-                mc=["core1", "tandem", "tri", "cls", "renege"], inv=["Inv_C01"], step=["Step_C01"]),
+    "C01": dict(fam=["core1", "tandem", "prio", "cls", "renege", "route", "preempt", "sched", "schedpre", "slot", "ccw"],
+                mc=["core1", "tandem", "tri", "cls", "renege", "schedpre", "slot", "ccw"], inv=["Inv_C01"], step=["Step_C01"]),
     "C02": dict(fam=["core1", "tandem", "prio", "renege", "cls"],
                 mc=["core1", "tandem", "renege", "prio"], inv=[], step=["Step_C02"]),
     "C03": dict(fam=["tandem", "route", "cls", "renege", "prio"],
@@ -31,9 +31,12 @@ PROPS = {
     "C07": dict(fam=["tandem", "cls", "route"], mc=["tandem", "tri", "cls"], inv=["Inv_C07"], step=["Step_C07"]),
     "C10": dict(fam=["core1", "tandem", "prio", "renege"], mc=["core1", "tandem", "prio"],
                 inv=["Inv_C10"], step=["Step_C10"]),
-    "C05": dict(fam=["core1", "tandem", "prio", "preempt", "renege", "cls"],
-                mc=["core1", "tandem", "prio", "preempt", "renege"], inv=["Inv_C05"], step=["Step_C05"]),
-    "C08": dict(fam=["prio", "preempt", "cls", "renege"], mc=["prio", "preempt", "cls"], inv=[], step=["Step_C08"]),
+    "C04": dict(fam=["tandem", "prio", "preempt", "sched", "schedpre", "core1"],
+                mc=["tandem", "preempt", "sched", "schedpre"], inv=["Inv_C04"], step=["Step_C04"]),
+    "C12": dict(fam=["sched", "schedpre", "slot"], mc=["sched", "schedpre", "slot"], inv=["Inv_C12"], step=["Step_C12"]),
+    "C05": dict(fam=["core1", "tandem", "prio", "preempt", "renege", "cls", "sched", "schedpre", "ccw"],
+                mc=["core1", "tandem", "prio", "preempt", "renege", "sched", "schedpre"], inv=["Inv_C05"], step=["Step_C05"]),
+    "C08": dict(fam=["prio", "preempt", "cls", "renege", "ccw", "sched", "slot"], mc=["prio", "preempt", "cls", "ccw", "slot"], inv=[], step=["Step_C08"]),
     "C09": dict(fam=["route", "cls", "tandem", "prio"], mc=["route", "cls", "tandem"], inv=["Inv_C09"], step=["Step_C09"]),
     "C11": dict(fam=["preempt"], mc=["preempt"], inv=["Inv_C11"], step=["Step_C11"]),
     "C13": dict(fam=["renege", "core1"], mc=["renege"], inv=["Inv_C13"], step=["Step_C13"]),
@@ -124,7 +127,7 @@ def judge(prop, verdicts, traces, known):
 
 
 def write_replay(prop, n, clause, idx, t, v):
-    d = os.path.join(VERIF, "replays")
+    d = os.path.join(VERIF, "replays" if not os.environ.get("CIWVERIF_NOEVIDENCE") else ".work/selftest_replays")
     os.makedirs(d, exist_ok=True)
     path = os.path.join(d, "%s_%d.json" % (prop, n))
     ev = t["events"]
@@ -246,8 +249,9 @@ def run_check(prop, tier, seed):
                          "scripted integer-valued distributions stand for arbitrary non-negative samples"]
     ev["violations"] = len(viol)
     ev["wall_s"] = round(time.time() - t0, 1)
-    os.makedirs(os.path.join(VERIF, "evidence"), exist_ok=True)
-    json.dump(ev, open(os.path.join(VERIF, "evidence", prop + ".json"), "w"), indent=1)
+    if not os.environ.get("CIWVERIF_NOEVIDENCE"):   # self-tests against scratch copies do not touch evidence/
+        os.makedirs(os.path.join(VERIF, "evidence"), exist_ok=True)
+        json.dump(ev, open(os.path.join(VERIF, "evidence", prop + ".json"), "w"), indent=1)
     for f, clause, idx, t in kf[:10]:
         log("KNOWN-FINDING: property=%s %s %s (clause %s, family %s seed %s)" %
             (prop, f["id"], f["what"], clause, t["family"], t["seed"]))
